@@ -41,7 +41,7 @@ RULE = (
     "read_data_from_txt. Oracle: the geometry / arrays the spec was built from: same number of fractures, end points "
     "exactly equal (fractures matched as a multiset, end points unordered), polygons exactly equal up to cyclic shift "
     "and reversal, Domain bounding box equal, same names, arrays equal exactly (%.17e) or to half a unit of the last "
-    "printed digit (relative 0.5*10^-p). Non-trivial = >= 2 fractures, or >= 2 values in total; distinct = hash of spec."
+    "printed digit (relative 0.5*10^-p). Non-trivial = >= 2 fractures, or >= 2 values in total; distinct = hash of spec. Half of the 3-d networks are modified between construction and writing (fracture.pts reassigned, PlaneFracture.add_points) and compared as they stand when written."
 )
 BUDGET = {"quick": {"cases": 2400, "seconds": 40}, "thorough": {"cases": 60000, "seconds": 1100}}
 TECHNIQUE = "property-based testing (Hypothesis): write/read round trip against the generated geometry and arrays"
